@@ -29,7 +29,7 @@ meta = {"property": prop, "name": name, "ran": []}
 if os.path.exists(f"{wt}/DEMO/demo.rs"):
     shutil.copy(f"{wt}/DEMO/demo.rs", f"{wt}/tests/demo.rs")
     rc1, o1 = sh(f"cargo test --offline {FEAT} --test demo 2>&1 | tail -n 15", cwd=wt)
-    fails_with = "test result: FAILED" in o1 or "panicked" in o1
+    fails_with = "test result: FAILED" in o1 or "panicked" in o1 or "error: test failed" in o1 or "SIGABRT" in o1
     # (no `git stash`: the stash is shared by all worktrees of one repository)
     rcr, orr = sh(f"git apply -R {out}/patch.diff", cwd=wt)
     assert rcr == 0, orr
@@ -39,7 +39,7 @@ if os.path.exists(f"{wt}/DEMO/demo.rs"):
     assert rca == 0, oa
     meta["demo_fails_with_change"] = fails_with
     meta["demo_passes_without_change"] = passes_without
-    meta["ran"].append(f"cargo test --offline {FEAT} --test demo (with the change: {'fails' if fails_with else 'passes'}; stashed: {'passes' if passes_without else 'fails'})")
+    meta["ran"].append(f"cargo test --offline {FEAT} --test demo (with the change: {'fails' if fails_with else 'passes'}; reverted with git apply -R: {'passes' if passes_without else 'fails'})")
     os.remove(f"{wt}/tests/demo.rs")
 # --- baseline suite with the change (demo removed)
 rc3, o3 = sh("(cargo nextest run --workspace --no-fail-fast --test-threads 8 --offline 2>&1 || cargo test --workspace --no-fail-fast --offline 2>&1) | tail -n 6", cwd=wt)
